@@ -14,7 +14,7 @@ import json,glob
 t=set()
 for f in glob.glob('registry/*.json'):
     r=json.load(open(f))
-    if r.get('ready'):
+    if r.get('ready') and r.get('property') in open('registry/_ready.txt').read().split():
         t.update(r.get('lean_modules',[]))
         if r.get('driver'): t.add(r['driver'])
 print(' '.join(sorted(t)))
@@ -26,7 +26,7 @@ sed "s#@REPO@#$REPO#" harness/go.mod.tmpl > harness/go.mod
 [ -f "$REPO/go.sum" ] && cp "$REPO/go.sum" harness/go.sum
 for n in $(python3 -c "
 import json,glob
-print(' '.join(sorted({json.load(open(f)).get('harness','') for f in glob.glob('registry/*.json') if json.load(open(f)).get('ready')}-{''})))"); do
+print(' '.join(sorted({json.load(open(f)).get('harness','') for f in glob.glob('registry/*.json') if json.load(open(f)).get('ready') and json.load(open(f)).get('property') in open('registry/_ready.txt').read().split()}-{''})))"); do
   (cd harness && go build -tags verif -o ../.build/h_$n ./cmd/$n)
 done
 echo "setup done"
